@@ -25,6 +25,7 @@ type Env struct {
 	derefs map[string]func(*State) Val
 	localsFirst bool // invariants/asserts: a name denotes the current value of the variable
 	inOld  bool
+	oldLocals bool // old() keeps resolving locals (call-site clauses: old = state before the call)
 	loopPre *State // invariants: the state on entry to the loop, for entry(e)
 }
 
@@ -225,12 +226,16 @@ func (e *Env) tr(x *SExpr) Val {
 		body := ne.bool(x.Args[0])
 		if x.Op == "forall" {
 			inner := sImp(sAnd(guards...), body)
-			if len(x.Trig) > 0 {
-				var ts []string
-				for _, t := range x.Trig {
-					ts = append(ts, ne.tr(t).S)
+			if len(x.Trigs) > 0 {
+				var pats []string
+				for _, g := range x.Trigs {
+					var ts []string
+					for _, t := range g {
+						ts = append(ts, ne.tr(t).S)
+					}
+					pats = append(pats, ":pattern ("+strings.Join(ts, " ")+")")
 				}
-				inner = fmt.Sprintf("(! %s :pattern (%s))", inner, strings.Join(ts, " "))
+				inner = fmt.Sprintf("(! %s %s)", inner, strings.Join(pats, " "))
 			}
 			return Val{T: tBool, S: fmt.Sprintf("(forall (%s) %s)", strings.Join(decl, " "), inner)}
 		}
@@ -281,7 +286,7 @@ func (e *Env) ident(n string) Val {
 	if v, ok := e.bound[n]; ok {
 		return v
 	}
-	if e.localsFirst && !e.inOld && e.lookup != nil {
+	if e.localsFirst && (!e.inOld || e.oldLocals) && e.lookup != nil {
 		if v, ok := e.lookup(n, e.state); ok {
 			return v
 		}
